@@ -281,7 +281,11 @@ def equivVerdict (c : Case) (i j : Nat) (fuel : Nat := 50000) : String :=
 
 def matchVerdict (c : Case) (i : Nat) (w : List Nat) : String :=
   match c.hirs[i]? with
-  | some h => if h.hasLook then "L" else if matchesB h.lower w then "1" else "0"
+  | some h =>
+    if h.hasLook then
+      -- the string alone in the haystack: nothing before, nothing after
+      (if LK.looksOK h then (if LK.matchesCB (LK.lowerL h) .none w .none then "1" else "0") else "L")
+    else if matchesB h.lower w then "1" else "0"
   | none => "?"
 
 /-! ## stream printing -/
